@@ -43,7 +43,23 @@ def gen_stateful(rng, size=None):
         prog["sinks"].append(dict(kind="recu", id=950 + k, port=nm))
     if rng.random() < 0.5:
         prog["gs"] = {"k70": rng.randint(100, 200)}
+    # error capture with seeded diagnostic options (process-wide interning of capturing node types)
+    if rng.random() < 0.4:
+        cands = [n for n in prog["nodes"] if n["kind"] in ("c1", "c2", "c3", "accum", "sample", "samplemid") and n.get("id")]
+        rng.shuffle(cands)
+        for j, n in enumerate(cands[:rng.choice((1, 2))]):
+            prog["sinks"].append(dict(kind="err", id=820 + j, port=n["name"], depth=rng.choice((1, 1, 2, 3)), values=rng.choice((0, 1))))
     return prog
+
+
+def capture_twin(S, rng):
+    """S with other diagnostic options on every error capture (same node types, different ErrorCaptureOptions)"""
+    q = copy.deepcopy(S)
+    for s in q["sinks"]:
+        if s["kind"] == "err":
+            s["depth"] = rng.choice([d for d in (1, 2, 3) if d != s.get("depth", 1)])
+            s["values"] = 1 - s.get("values", 0)
+    return q
 
 
 class C07:
@@ -108,7 +124,13 @@ class C07:
         S = gen_stateful(rng)
         others = [gen_stateful(rng, size=rng.randint(2, 10)) for _ in range(rng.randint(1, 6))]
         fault = None
-        if rng.random() < 0.3:
+        captured = [n["id"] for n in S["nodes"] for s in S["sinks"] if s["kind"] == "err" and s["port"] == n["name"]]
+        if captured:
+            # the captured node throws (the error output carries the requested diagnostics), and one of the earlier scenarios
+            # in the process is S itself with other capture options
+            fault = (rng.choice(captured), "eval", rng.randint(1, 2))
+            others.insert(rng.randrange(len(others) + 1), capture_twin(S, rng))
+        elif rng.random() < 0.3:
             ids = [n["id"] for n in S["nodes"] if n.get("id") and n["kind"] in ("c1", "c2", "c3", "accum", "source", "ticker")]
             if ids:
                 fault = (rng.choice(ids), rng.choice(("eval", "eval", "start", "stop")), rng.randint(1, 2))
